@@ -233,3 +233,17 @@ PROPS["C16"] = {
     "level_text": "relational check over twin executions of one seeded deterministic world differing only in forwarding headers",
     "assumptions": COMMON_ASSUMPTIONS + ["X-Auth-Request-Redirect and the request-id header are honoured in every mode by design and are not part of the twin delta"],
 }
+
+PROPS["C07"] = {
+    "level": "exploration",
+    "quick_runs": 800, "quick_budget_s": 150, "thorough_budget_s": 600,
+    "rule": "one run = one world: either a seeded combination of the ten legacy header options (pass-basic-auth, pass-user-headers, pass-access-token, pass-authorization-header, "
+            "set-basic-auth, set-xauthrequest, set-authorization-header, prefer-email-to-user, skip-auth-strip-headers, basic-auth-password) judged against the documented mapping, or "
+            "structured request / response header lists (1-4 names incl. lower-case and Authorization, 1-2 values each from 7 claims as plain / prefixed / basic-auth, preserve on/off) + "
+            "six session sources (cookie sessions of a plain, a Unicode / multi-group and a group-less user, bearer token, htpasswd basic, none on a bypassed route) + 40-79 requests to "
+            "an upstream path or /oauth2/auth carrying 0-4 spoofed headers under configured names and neighbours in four letter cases with comma-joined, padded and repeated values; "
+            "oracle: independent derivation expected(name) from (configuration, session), compared with what the FakeUpstream received over the real transport and with the auth-only "
+            "response; unconfigured names must arrive as sent; non-trivial = at least one request reached the upstream; distinct = distinct configuration + event hash",
+    "level_text": "seeded search over session source x spoofed headers x option combinations, observed at the upstream",
+    "assumptions": COMMON_ASSUMPTIONS + ["repeated fields are compared modulo RFC 9110 list combination (joined with ','); set-basic-auth without a password is not judged"],
+}
